@@ -1462,3 +1462,12 @@ package analysis
 //@   modifies nothing
 //@   maypanic
 //@   ensures idUnknown(s, operationID) ==> len(result) == 0
+
+// ---------------------------------------------------------------- no panic (C09)
+
+// New never panics on a non-nil document: every nil dereference, nil-map write, index and type assertion in the
+// analyzer walk (inlined into this unit, recursion by contract) is an obligation.
+//@ func New(doc)
+//@   requires doc != nil
+//@   modifies nothing
+//@   ensures result != nil && fresh(result) && result.spec == doc
